@@ -182,7 +182,7 @@ def run(rep, drv):
 	rng = random.Random(rep.seed + 8)
 	for k in range(600 if th else 100):
 		serial_case(rep, drv, rng)
-	for k in range(400 if th else 60):
+	for k in range(1200 if th else 200):
 		tree_case(rep, drv, rng, th)
 
 
